@@ -1464,13 +1464,13 @@ class Identity( Object ):
             pass
         else:
             # Instance Attributes (these example defaults are from a Rockwell Logix PLC)
-            self.attribute['1']	= Attribute( 'Vendor Number', 		INT,
+            self.attribute['1']	= Attribute( 'Vendor Number', 		UINT,
 	        default=self.config_int(     'Vendor Number',			0x0001 ))
-            self.attribute['2']	= Attribute( 'Device Type', 		INT,
+            self.attribute['2']	= Attribute( 'Device Type', 		UINT,
 	        default=self.config_int(     'Device Type',			0x000e ))
-            self.attribute['3']	= Attribute( 'Product Code Number',	INT,
+            self.attribute['3']	= Attribute( 'Product Code Number',	UINT,
 	        default=self.config_int(     'Product Code Number',		0x0036 ))
-            self.attribute['4']	= Attribute( 'Product Revision', 	INT,
+            self.attribute['4']	= Attribute( 'Product Revision', 	UINT,
 	        default=self.config_int(     'Product Revision',		0x0b14 ))
             self.attribute['5']	= Attribute( 'Status Word', 		WORD,
 	        default=self.config_int(     'Status Word',			0x3160 ))
